@@ -12,9 +12,17 @@ import json, os, shutil, signal, subprocess, sys, tempfile, time, hashlib, glob
 
 VERIF = os.path.dirname(os.path.abspath(__file__))
 REPO = os.environ.get("VERIF_REPO", "/repo")
+# evidence and replays of a run against another tree (seeded changes in a scratch worktree) never land in /verif
+OUTBASE = os.environ.get("VERIF_OUT_DIR") or (None if REPO != "/repo" else "")
 GO = os.environ.get("VERIF_GO", "go1.26.8")
 NCPU = int(os.environ.get("VERIF_WORKERS", str(min(16, os.cpu_count() or 4))))
 ENV = dict(os.environ, GOFLAGS="-mod=mod", GOPROXY="off", GOSUMDB="off", GOTOOLCHAIN="local", CGO_ENABLED="0")
+# the module cache of this sandbox is under /root/go whatever HOME the caller happens to export: nothing can be
+# fetched, so a go command that looks elsewhere finds no dependency at all
+if "GOMODCACHE" not in os.environ and os.path.isdir("/root/go/pkg/mod/cache/download"):
+    ENV["GOMODCACHE"] = "/root/go/pkg/mod"
+if "GOCACHE" not in os.environ and os.path.isdir("/root/.cache/go-build") and os.access("/root/.cache/go-build", os.W_OK):
+    ENV["GOCACHE"] = "/root/.cache/go-build"
 MOD = "github.com/regclient/regclient"
 
 def log(*a):
@@ -22,6 +30,12 @@ def log(*a):
 
 def die(msg, code=2):
     print("INFRA-ERROR:", msg, flush=True)
+    try:
+        # what the go command saw, for the reader of the log
+        r = subprocess.run([GO, "env", "GOMODCACHE", "GOCACHE", "GOPATH", "GOFLAGS", "GOPROXY", "GOVERSION"], env=ENV, stdout=subprocess.PIPE, stderr=subprocess.STDOUT, text=True, timeout=60)
+        print("INFRA-ERROR: go env (GOMODCACHE GOCACHE GOPATH GOFLAGS GOPROXY GOVERSION): %s; HOME=%s USER-ID=%d cwd=%s" % (" | ".join(r.stdout.split("\n")), os.environ.get("HOME"), os.getuid(), os.getcwd()), flush=True)
+    except Exception as ex:
+        print("INFRA-ERROR: go env unavailable: %s" % ex, flush=True)
     sys.exit(code)
 
 def sh(cmd, cwd=None, check=True, quiet=False):
@@ -31,6 +45,19 @@ def sh(cmd, cwd=None, check=True, quiet=False):
     if not quiet and r.stdout.strip():
         log(r.stdout.strip()[-2000:])
     return r
+
+_outbase = None
+def outbase():
+    global _outbase
+    if _outbase is None:
+        if OUTBASE == "":
+            _outbase = VERIF
+        elif OUTBASE:
+            _outbase = OUTBASE
+        else:
+            _outbase = tempfile.mkdtemp(prefix="verif-altout-")
+            log("tree under test is %s, not /repo: evidence and replays go to %s" % (REPO, _outbase))
+    return _outbase
 
 def load_props():
     with open(os.path.join(VERIF, "props.json")) as f:
@@ -184,7 +211,7 @@ def cmd_check(pid, tier):
         tot = merge(sums)
         infra += tot["infra"]
         known, _ = load_known()
-        os.makedirs(os.path.join(VERIF, "replays"), exist_ok=True)
+        os.makedirs(os.path.join(outbase(), "replays"), exist_ok=True)
         viol_lines, known_lines, new_viol = [], [], 0
         extra_fps = []
         for key, f in sorted(tot["found"].items()):
@@ -195,7 +222,7 @@ def cmd_check(pid, tier):
             if not f.get("replay"):
                 extra_fps.append("%s (seed %d %s): %s" % (key, f["seed"], f.get("params") or "", f["detail"][:200]))
                 continue
-            dst = os.path.join(VERIF, "replays", os.path.basename(f["replay"]))
+            dst = os.path.join(outbase(), "replays", os.path.basename(f["replay"]))
             shutil.copy(f["replay"], dst)
             # the replay must reproduce in a fresh process
             env = dict(ENV, VERIF_PROP=pid, VERIF_REPLAY=dst, VERIF_FS=sc.fs, GOMAXPROCS="2", VERIF_OUT=os.path.join(sc.out, "replay.json"))
@@ -258,8 +285,8 @@ def cmd_check(pid, tier):
             infra.append("more than 2%% of the runs hung (%d of %d), e.g. %s: the harness refuses to answer" % (tot["hung"], tot["execs"], tot["hung_seeds"][:3]))
         if tot["execs"] == 0:
             infra.append("no executions")
-        os.makedirs(os.path.join(VERIF, "evidence"), exist_ok=True)
-        with open(os.path.join(VERIF, "evidence", pid + ".json"), "w") as f:
+        os.makedirs(os.path.join(outbase(), "evidence"), exist_ok=True)
+        with open(os.path.join(outbase(), "evidence", pid + ".json"), "w") as f:
             json.dump(ev, f, indent=1, sort_keys=False)
         for l in known_lines: print(l)
         for l in viol_lines: print(l)
